@@ -223,6 +223,12 @@ def check(repo: Repo, rep: Report) -> None:
     # explicit zero-extent grids (used by Rooms for 1xN boards)
     cases = [(N("Grid", N("MultiDigit", 2, 5), 0, 3), [], (4, 4), "Grid(height=0, width=3) empty value"),
              (N("Grid", N("MultiDigit", 2, 5), 2, 0), [[], []], (4, 4), "Grid(height=2, width=0) value [[], []]")]
+    # elements that are written as the empty string (an empty inner sequence, a zero-extent grid, the rooms of a 1x1 board) repeated in
+    # a Seq: progress is counted in items, not in characters
+    cases += [(N("Seq", N("Seq", N("HexInt"), 0), 3), [[], [], []], (1, 1), "Seq(Seq(HexInt, 0), 3) value [[], [], []]"),
+              (N("Seq", N("Grid", N("MultiDigit", 2, 5), 2, 0), 2), [[[], []], [[], []]], (4, 4), "Seq(Grid(height=2, width=0), 2)"),
+              (N("Seq", N("Rooms"), 2), [[[(0, 0)]], [[(0, 0)]]], (1, 1), "Seq(Rooms(), 2) on a 1x1 board"),
+              (N("Tupl", N("Seq", N("Seq", N("HexInt"), 0), 2), N("DecInt")), ([[[], []]], [12]), (1, 1), "Tupl(Seq(Seq(HexInt, 0), 2), DecInt)")]
     judge("RT-GRID", "Grid zero-extent", cases)
     # ---- one combinator object, boards of different sizes one after the other (the puzzle codecs are module-level constants) --------
     try:
